@@ -19,7 +19,8 @@ RULE = ("cases = random specs (13 kinds, nesting<=3, value+constraint combos, al
 ASSUMPTIONS = ["satisfiability is decided constructively by rv/gen_value.witness (a spec without witness is skipped, counted)",
                "pattern-carrying strs use the C09 supported grammar only",
                "a disagreement between validate and the reference on a generated value is attributed to C02"]
-TIERS = {"quick": dict(shards=16, cases=4000), "thorough": dict(shards=16, cases=60000)}
+REACH_FILES = ['d42/generation/_generator.py', 'd42/generation/_random.py', 'd42/generation/_regex_generator.py']
+TIERS = {"quick": dict(shards=16, cases=12000), "thorough": dict(shards=16, cases=60000)}
 
 PROF = Profile(max_depth=3, p_unsat=0.04)
 
